@@ -230,7 +230,8 @@ def handle (st : St) (seq : String) (f : List String) : St × List String :=
                 | _ => (none, [])
               else (none, [])
             | _, _ => (none, [])
-          let sp' := if o != "ok" then sp else if back then { sp with muted := true } else specAfter sp cur ctx kind rate pw
+          let sp' := if o != "ok" then sp else if back then { (specAfter sp cur ctx kind rate pw) with muted := true }
+            else specAfter sp cur ctx kind rate pw
           let sp' := { sp' with clockMax := if sp.clockMax < now then now else sp.clockMax }
           ({ s := some real, spec := sp', once := once' },
            d ++ bad ++ (mon ++ mon2).map fun m => s!"MON\t{seq}\t{m}")
